@@ -26,9 +26,7 @@ verus! {
                 v@ == seq![self@.len() as u8] + enc_n(ee_u32(), self@, it.index@),
 //@end
 //@extract src/keyspace/config/block_size.rs :: DecodeConfig for crate::config::BlockSizePolicy :: decode inherent no_loop_isolation props=C16
-//@contract
-    requires bytes.at_start(), is_stored_policy(ee_u32(), bytes.rs().all),
-    ensures decodes_to_what_was_stored(ee_u32(), bytes.rs().all, r), // [C16:block_size-decode-returns-what-encode-stored]
+//@contract-file fn/policy_decode_block_size.c
 //@loop 0
             invariant
                 bytes.rs().all == all0, stored_as(ee_u32(), s0, all0), len == s0.len(),
@@ -57,9 +55,7 @@ verus! {
                 v@ == seq![self@.len() as u8] + enc_n(ee_comp(), self@, it.index@),
 //@end
 //@extract src/keyspace/config/compression.rs :: DecodeConfig for crate::config::CompressionPolicy :: decode inherent no_loop_isolation props=C16
-//@contract
-    requires bytes.at_start(), is_stored_policy(ee_comp(), bytes.rs().all),
-    ensures decodes_to_what_was_stored(ee_comp(), bytes.rs().all, r), // [C16:compression-decode-returns-what-encode-stored]
+//@contract-file fn/policy_decode_compression.c
 //@loop 0
             invariant
                 bytes.rs().all == all0, stored_as(ee_comp(), s0, all0), len == s0.len(),
@@ -88,9 +84,7 @@ verus! {
                 v@ == seq![self@.len() as u8] + enc_n(ee_filter(), self@, it.index@),
 //@end
 //@extract src/keyspace/config/filter.rs :: DecodeConfig for crate::config::FilterPolicy :: decode inherent no_loop_isolation props=C16
-//@contract
-    requires bytes.at_start(), is_stored_policy(ee_filter(), bytes.rs().all),
-    ensures decodes_to_what_was_stored(ee_filter(), bytes.rs().all, r), // [C16:filter-decode-returns-what-encode-stored]
+//@contract-file fn/policy_decode_filter.c
 //@loop 0
             invariant
                 bytes.rs().all == all0, stored_as(ee_filter(), s0, all0), len == s0.len(),
@@ -119,9 +113,7 @@ verus! {
                 v@ == seq![self@.len() as u8] + enc_n(ee_f32(), self@, it.index@),
 //@end
 //@extract src/keyspace/config/hash_ratio.rs :: DecodeConfig for crate::config::HashRatioPolicy :: decode inherent no_loop_isolation props=C16
-//@contract
-    requires bytes.at_start(), is_stored_policy(ee_f32(), bytes.rs().all),
-    ensures decodes_to_what_was_stored(ee_f32(), bytes.rs().all, r), // [C16:hash_ratio-decode-returns-what-encode-stored]
+//@contract-file fn/policy_decode_hash_ratio.c
 //@loop 0
             invariant
                 bytes.rs().all == all0, stored_as(ee_f32(), s0, all0), len == s0.len(),
@@ -150,9 +142,7 @@ verus! {
                 v@ == seq![self@.len() as u8] + enc_n(ee_bool(), self@, it.index@),
 //@end
 //@extract src/keyspace/config/pinning.rs :: DecodeConfig for crate::config::PinningPolicy :: decode inherent no_loop_isolation props=C16
-//@contract
-    requires bytes.at_start(), is_stored_policy(ee_bool(), bytes.rs().all),
-    ensures decodes_to_what_was_stored(ee_bool(), bytes.rs().all, r), // [C16:pinning-decode-returns-what-encode-stored]
+//@contract-file fn/policy_decode_pinning.c
 //@loop 0
             invariant
                 bytes.rs().all == all0, stored_as(ee_bool(), s0, all0), len == s0.len(),
@@ -181,9 +171,7 @@ verus! {
                 v@ == seq![self@.len() as u8] + enc_n(ee_u8(), self@, it.index@),
 //@end
 //@extract src/keyspace/config/restart_interval.rs :: DecodeConfig for crate::config::RestartIntervalPolicy :: decode inherent no_loop_isolation props=C16
-//@contract
-    requires bytes.at_start(), is_stored_policy(ee_u8(), bytes.rs().all),
-    ensures decodes_to_what_was_stored(ee_u8(), bytes.rs().all, r), // [C16:restart_interval-decode-returns-what-encode-stored]
+//@contract-file fn/policy_decode_restart_interval.c
 //@loop 0
             invariant
                 bytes.rs().all == all0, stored_as(ee_u8(), s0, all0), len == s0.len(),
